@@ -398,7 +398,31 @@ class StructCodec(AbstractMetadataCodec):
             }[sub_schema["type"]](sub_schema)
 
     @classmethod
+    def has_exhaust_array(cls, sub_schema):
+        """
+        True if this schema contains an array with noLengthEncodingExhaustBuffer.
+        """
+        type_ = sub_schema["type"]
+        if type_ == "object" or set(type_) == {"object", "null"}:
+            return any(
+                cls.has_exhaust_array(prop) for prop in sub_schema["properties"].values()
+            )
+        elif type_ == "array":
+            return (
+                sub_schema.get("length") is None
+                and sub_schema.get("noLengthEncodingExhaustBuffer", False)
+            ) or cls.has_exhaust_array(sub_schema["items"])
+        return False
+
+    @classmethod
     def make_array_decode(cls, sub_schema):
+        # An exhaust-buffer array swallows every remaining byte, so it cannot be
+        # an element of another array.
+        if StructCodec.has_exhaust_array(sub_schema["items"]):
+            raise exceptions.MetadataSchemaValidationError(
+                "An array with noLengthEncodingExhaustBuffer cannot be nested in"
+                " another array"
+            )
         element_decoder = StructCodec.make_decode(sub_schema["items"])
         fixed_length = sub_schema.get("length")
         array_length_f = "<" + sub_schema.get("arrayLengthFormat", "L")
@@ -462,7 +486,20 @@ class StructCodec(AbstractMetadataCodec):
             return struct.calcsize("<" + sub_schema["binaryFormat"]) == 0
 
     @classmethod
+    def check_exhaust_array_is_last(cls, sub_schema):
+        # An exhaust-buffer array swallows every remaining byte, so it must be
+        # (in) the last property that is encoded.
+        props = list(sub_schema["properties"].items())
+        for key, prop in props[:-1]:
+            if StructCodec.has_exhaust_array(prop):
+                raise exceptions.MetadataSchemaValidationError(
+                    f"{key}: an array with noLengthEncodingExhaustBuffer must be the"
+                    " last property to be encoded"
+                )
+
+    @classmethod
     def make_object_decode(cls, sub_schema):
+        StructCodec.check_exhaust_array_is_last(sub_schema)
         sub_decoders = {
             key: StructCodec.make_decode(prop)
             for key, prop in sub_schema["properties"].items()
@@ -473,6 +510,7 @@ class StructCodec(AbstractMetadataCodec):
 
     @classmethod
     def make_object_or_null_decode(cls, sub_schema):
+        StructCodec.check_exhaust_array_is_last(sub_schema)
         sub_decoders = {
             key: StructCodec.make_decode(prop)
             for key, prop in sub_schema["properties"].items()
